@@ -2,7 +2,7 @@
    No theorem lives here. *)
 From Coq Require Import String.
 From Flocq Require Import Core BinarySingleNaN.
-Require Import DDO.Base DDO.Gap DDO.Width DDO.Cache DDO.Dom DDO.DomSpec DDO.Fringe DDO.DP DDO.Mdd DDO.Viz DDO.Table DDO.Solver.
+Require Import DDO.Base DDO.Gap DDO.Width DDO.Cache DDO.Dom DDO.DomSpec DDO.Fringe DDO.FringeProofs DDO.Fringe2 DDO.DP DDO.Mdd DDO.Viz DDO.Table DDO.Solver.
 Open Scope Z_scope.
 
 (* IEEE-754 binary32 bit pattern of a model float; None = NaN *)
@@ -66,10 +66,15 @@ Definition zd_spec_dominated (nd : nat) (usev : bool) := @spec_dominated dstate 
 (* fringes over integer states, MaxUB ranking *)
 Definition zsub := @subproblem Z.
 Definition z_maxub := @maxub_cmp Z Z.compare.
-Definition zf_empty : @nodup Z := nd_empty.
-Definition zf_push := @nd_push Z Z.eqb z_maxub.
-Definition zf_pop := @nd_pop Z Z.eqb z_maxub.
-Definition zf_len := @nd_len Z.
+(* NoDupFringe as it is after the fix: keyed by (state, depth) *)
+Definition zf_empty : @knodup Z := k_empty.
+Definition zf_push := @k_push Z Z.eqb Z.compare.
+Definition zf_pop := @k_pop Z Z.eqb Z.compare.
+Definition zf_len := @k_len Z.
+(* NoDupFringe as it was before the fix: keyed by the state alone (kept for replaying finding D4) *)
+Definition zf0_empty : @nodup Z := nd_empty.
+Definition zf0_push := @nd_push Z Z.eqb z_maxub.
+Definition zf0_pop := @nd_pop Z Z.eqb z_maxub.
 
 (* abstract priority queue (the specification): coalescing insert, membership / maximality test *)
 Definition zq_push_nodup := @pq_push_nodup Z Z.eqb.
